@@ -4,8 +4,8 @@ CONSTANTS
   CapRewards = 1
   CapUnlocks = 2
   MaxTxs = 16
-  MaxItems = 4
-  MaxBlocks = 6
+  MaxItems = 3
+  MaxBlocks = 5
   UsedKinds = {"hash", "paid", "reject", "unlock"}
 INIT Init
 NEXT Next
